@@ -31,6 +31,12 @@ def iv_eval(t, u, ubox, bins):
         return Iv(t[1], True, t[1], True)
     if isinstance(t, tuple) and t[0] == 'ite':
         c = t[1]
+        if isinstance(c, tuple) and c[0] == '==' and c[2] == u and T.is_num(c[1]):
+            c = ('==', c[2], c[1])
+        if isinstance(c, tuple) and c[0] == '!=' and (c[1] == u or c[2] == u):
+            # u != k ? a : b  ==  u == k ? b : a
+            c = ('==', c[1], c[2]) if c[1] == u else ('==', c[2], c[1])
+            t = ('ite', c, t[3], t[2])
         if isinstance(c, tuple) and c[0] == '==' and c[1] == u and T.is_num(c[2]):
             k = c[2][1]
             a = iv_eval(t[2], u, Iv(k, True, k, True), bins) if ubox.lo <= k <= ubox.hi else None
@@ -159,7 +165,7 @@ def check(ctx):
             for t in T.subterms(u_['next']):
                 if isinstance(t, tuple) and t and t[0] == 'sel' and t[1] == xs:
                     got.add(t)
-        if got == want_reads:
+        if set(T.canon(t) for t in got) == set(T.canon(t) for t in want_reads):
             ctx.holds('R1.reads', where, 'only boundaries `index` and `index+1` of row i are read')
         else:
             ctx.violation('R1.reads', where, 'grid boundaries other than index / index+1 of the row are read',
@@ -184,6 +190,10 @@ def check(ctx):
     where = fsite(g)
     s, ex = summarise(p, g)
     dims = fld(PDF, 'dimensions_')
+    def own(l):
+        # loops of vegas_refine_pdf and of helper functions it was split into (not of class methods
+        # of the grid that happen to be inlined)
+        return l.func is g or l.func.record is None
     outer = [l for l in s.loops if l.func is g and l.lo == ZERO and l.hi == dims and l.regular]
 
     def r2():
@@ -226,7 +236,7 @@ def check(ctx):
         ou = upd_by_final(outer[0], fld(s.ret, 'x')) if outer else None
         if ou is None:
             raise AnalysisBroken('the boundaries of the returned grid are not written in the per-dimension loop')
-        wl = [l for l in s.loops if l.func is g and l not in outer and upd_by_loc(l, ou['loc']) is not None]
+        wl = [l for l in s.loops if own(l) and l not in outer and upd_by_loc(l, ou['loc']) is not None]
         if len(wl) != 1:
             raise AnalysisBroken('redistribution loop of vegas_refine_pdf not recognised')
         l5 = wl[0]
@@ -235,7 +245,7 @@ def check(ctx):
         nx = u['next']
         i = outer[0].idx
         ok = (l5.lo, l5.hi) == (ONE, bins) and isinstance(nx, tuple) and nx[0] == 'vupd' and \
-            nx[1] == u['pre'] and nx[2] == add(mul(i, add(bins, ONE)), l5.idx)
+            nx[1] == u['pre'] and T.same(nx[2], add(mul(i, add(bins, ONE)), l5.idx))
         if ok:
             ctx.holds('R3.interior_only', w, 'refinement writes exactly boundaries 1 .. bins-1 of '
                       'dimension i: the end points 0 and 1 are inherited from the initial value')
@@ -251,9 +261,10 @@ def check(ctx):
         row = mul(i, add(bins, ONE))
         bh = None
         for t in T.subterms(new_left):
-            if isinstance(t, tuple) and t and t[0] == 'sel' and t[1] == xs and isinstance(t[2], tuple) and \
-                    t[2][0] == '+' and t[2][1] == row and isinstance(t[2][2], tuple) and t[2][2][0] == 'havoc':
-                bh = t[2][2]
+            if isinstance(t, tuple) and t and t[0] == 'sel' and t[1] == xs:
+                for h in T.subterms(t[2]):
+                    if isinstance(h, tuple) and h and h[0] == 'havoc' and T.same(sub(t[2], h), row):
+                        bh = h
         if bh is None:
             raise AnalysisBroken('the old bin the new boundary falls into is not identified')
         divs = [t for t in T.subterms(new_left) if isinstance(t, tuple) and t and t[0] == '/'
@@ -265,7 +276,7 @@ def check(ctx):
         # the importance vector may have been folded into an ite by sel(); recover it from the loops
         cand = []
         for l in s.loops:
-            if l.func is not g or l in outer or l is l5:
+            if not own(l) or l in outer or l is l5:
                 continue
             for lab, uu in l.updates.items():
                 if uu['kind'] == 'map' and (l.lo, l.hi) == (ZERO, bins) and \
@@ -293,12 +304,13 @@ def check(ctx):
         prev = sel(xs, add(row, sub(bh, ONE)))
         want = F.vegas_new_left(cur, prev, sub(th, avg), sel(imp_vec, sub(bh, ONE)))
         check_equal(ctx, 'R4.new_boundary', w, 'new boundary inside the old bin (bin-1, bin), divided by the '
-                    'importance of that bin as computed for THIS dimension', new_left, want)
+                    'importance of that bin as computed for THIS dimension', T.canon_idx(new_left), T.canon_idx(want))
         # importance function
         norm = None
         for pc_c in l4.pc:
-            if isinstance(pc_c, tuple) and pc_c[0] == 'not' and pc_c[1][0] == '==' and pc_c[1][2] == ZERO:
-                norm = pc_c[1][1]
+            c_ = norm_cond(pc_c)
+            if isinstance(c_, tuple) and len(c_) == 3 and c_[0] == '!=' and ZERO in (c_[1], c_[2]):
+                norm = c_[2] if c_[1] == ZERO else c_[1]
         w4 = '%s:vegas_refine_pdf' % l4.node.where()
         if norm is None:
             ctx.violation('R4.norm_nonzero', w4, 'the importance loop (division by norm) can be reached '
@@ -343,7 +355,7 @@ def check(ctx):
         and the initial / final statements - the loop is not executed"""
         from .. import algebra
         i = outer[0].idx
-        sm = [l for l in s.loops if l.func is g and l not in outer and (l.lo, l.hi) == (ONE, sub(bins, ONE))]
+        sm = [l for l in s.loops if own(l) and l not in outer and (l.lo, l.hi) == (ONE, sub(bins, ONE))]
         if len(sm) != 1:
             raise AnalysisBroken('smoothing loop (1 .. bins-2) of vegas_refine_pdf not recognised')
         l3 = sm[0]
@@ -387,7 +399,7 @@ def check(ctx):
                           {'written': T.pretty(T.subst(val, inv))[:300], 'want': T.pretty(want)[:200],
                            'init': {x['label']: T.pretty(x['init'])[:120] for x in (A, B, N, V)}})
         # last entry: (previous + current)/2 after the loop, added to norm
-        imp = [l for l in s.loops if l.func is g and l is not l3 and l not in outer and (l.lo, l.hi) == (ZERO, bins)
+        imp = [l for l in s.loops if own(l) and l is not l3 and l not in outer and (l.lo, l.hi) == (ZERO, bins)
                and any(u['kind'] == 'sum' for u in l.updates.values())]
         if len(imp) == 1:
             vin = None
